@@ -5,7 +5,7 @@ load(source), the vias its functions are annotated to accept, and a comparator
 ``same(ctx, original, loaded)`` which returns None when equal or a string
 explaining the difference (never raises for unequal values).
 """
-from .core import SimCrash, judge
+from .core import SimCrash, Viol, judge
 from .simfs import Seams, SimFS, SimPath
 
 BUFFER_SIZES = [1, 7, 64, 4096, 1 << 30]
@@ -107,11 +107,18 @@ class Store:
                 ctx.probe("fault-surfaced-as-other-exception")
         else:
             bad = [f for f in fired if f[0] != "short_read"]
-            if bad:
-                self.model[path] = ("UNKNOWN", self._cands(old) + [(kindname, value)])
-                ctx.fail("swallowed-error", f"save:{kindname}:{bad[0][0]}",
-                         f"save returned normally although injected {bad[0][0]} fired at event {bad[0][1]} ({bad[0][2]})")
             self.model[path] = ("ACK", kindname, value)
+            if bad:
+                # the save returned although a fault fired.  Fine if it coped (retried, fell back to another way of
+                # writing) and the value IS on the disk; a swallowed error if it is not
+                try:
+                    self._verify(ctx, path, "str", None, implicit=True)
+                except Viol as v:
+                    self.model[path] = ("UNKNOWN", self._cands(old) + [(kindname, value)])
+                    ctx.fail("swallowed-error", f"save:{kindname}:{bad[0][0]}",
+                             f"save returned normally although injected {bad[0][0]} fired at event {bad[0][1]} ({bad[0][2]}), and the "
+                             f"value is not what the file holds: {v.detail[:600]}")
+                ctx.probe("fault-absorbed-by-save")
             if old is not None:
                 ctx.probe("overwrite")
                 if old[0] == "ACK" and old[1] != kindname:
@@ -173,8 +180,16 @@ class Store:
             return "failed"
         bad = [f for f in fired if f[0] != "short_read"]
         if bad:
-            ctx.fail("swallowed-error", f"save:{kindname}:{bad[0][0]}",
-                     f"save to a positioned handle returned normally although injected {bad[0][0]} fired")
+            try:
+                return self._read_back_after_header(ctx, kind, kindname, value, path, header, content, lib_closed)
+            except Viol as v:
+                ctx.fail("swallowed-error", f"save:{kindname}:{bad[0][0]}",
+                         f"save to a positioned handle returned normally although injected {bad[0][0]} fired, and the value is not what "
+                         f"the file holds: {v.detail[:600]}")
+        return self._read_back_after_header(ctx, kind, kindname, value, path, header, content, lib_closed)
+
+    def _read_back_after_header(self, ctx, kind, kindname, value, path, header, content, lib_closed):
+        fs = self.fs
         if lib_closed:
             ctx.fail("handle-closed", f"save:{kindname}", "library closed a caller-owned handle")
         # read back: own text first, then the library's document from where it starts
